@@ -396,6 +396,7 @@ pub fn run(ctx: &Ctx) -> Outcome {
         floor("all jobs (11 types x 2 styles x {explored, abandoned} + 11 long lists)", report.get("jobs_done") == 55, report.get("jobs_done")),
         floor("other signs on the bus left in the middle of a transfer", report.get("bystanders_left_mid_transfer") > 1000, report.get("bystanders_left_mid_transfer")),
         floor("page lists below and above 65536 chunks for every type", report.get("long_page_lists") == 22 && report.maxs.get("most_chunks_in_one_transfer").copied().unwrap_or(0.0) > 65_536.0, report.get("long_page_lists")),
+        floor("the implementation's equality separates sign states whose futures differ (the explorer's visited set relies on it)", vsx::equality_merges_states_with_different_futures() == 0, vsx::equality_merges_states_with_different_futures()),
         floor("every exploration reached a fixed point", report.get("explorations_at_fixed_point") == 22, report.get("explorations_at_fixed_point")),
         floor("all 13 protocol states used as prior state", report.set_len("prior_states") == 13, report.set_len("prior_states")),
         floor("(prior state x type) cells (13 x 11)", cells == 143, cells),
